@@ -22,7 +22,7 @@ Section History.
   (* ---------------------------------------------------------------- the flags are all the order-free reading needs *)
 
   Lemma fast_val_ext fc1 fc2 : (forall c x, fc1 c x = fc2 c x) ->
-                               forall tf v, fast_val sser ofast e fc1 tf v = fast_val sser ofast e fc2 tf v.
+                               forall tf v, fast_val sser ofast fc1 tf v = fast_val sser ofast fc2 tf v.
   Proof.
     intro H. induction tf as [l|item IH|item IH|c|nf f IH|ls|id o]; intro v; cbn [fast_val]; try reflexivity.
     - destruct v; try reflexivity. rewrite (mapM_ext _ _ l IH). reflexivity.
@@ -44,76 +44,44 @@ Section History.
   Proof.
     intro H. induction n as [|n IH]; intros cn v; cbn [sfast]; [reflexivity|].
     destruct (find_tclass e cn) as [c|]; [|reflexivity]. destruct v; try reflexivity.
-    rewrite (fast_fields_ext _ (fast_val sser ofast e
-                                  (fun c' x => match find_tclass e c' with
-                                               | Some cd => if t_fast cd then sfast sser ofast e cf2 n c' x else Raise TypeError
-                                               | None => Raise Unmodelled
-                                               end)) c attrs).
+    rewrite (fast_fields_ext _ (fast_val sser ofast (fun _ x => by_class e (sfast sser ofast e cf2 n) x)) c attrs).
     - rewrite H. reflexivity.
-    - apply fast_val_ext. intros c' x. destruct (find_tclass e c') as [cd|]; [|reflexivity].
+    - apply fast_val_ext. intros c' x. unfold by_class. destruct x; try reflexivity.
+      destruct (find_tclass e cls0) as [cd|]; [|reflexivity].
       destruct (t_fast cd); [apply IH|reflexivity].
-  Qed.
-
-  (* ---------------------------------------------------------------- a decidable sufficient condition for `closed` *)
-
-  Definition has_own (own : ownmap) (c : pystr) : bool :=
-    match alist_get own c with Some _ => true | None => false end.
-
-  (* k and every class any declaration refers to have a serializer of their own; all references are in
-     the modelled shapes *)
-  Definition closedb (own : ownmap) (k : pystr) : bool :=
-    has_own own k && forallb (has_own own) (flat_map class_refs e) &&
-    forallb (fun cd => forallb (fun fd => shape_ok (f_ty fd)) (t_fields cd)) e.
-
-  Lemma reach_univ k c : reach e k c -> c = k \/ In c (flat_map class_refs e).
-  Proof.
-    induction 1 as [c|a b c cd Hf Hin Hr IH]; [left; reflexivity|].
-    right. destruct IH as [IH|IH]; [|exact IH]. subst c.
-    apply in_flat_map. exists cd. split; [apply (find_tclass_In _ _ _ Hf)|exact Hin].
-  Qed.
-
-  Lemma closedb_closed own k : closedb own k = true -> closed e own (conf_of own) k.
-  Proof.
-    unfold closedb. intro H. apply andb_true_iff in H as [H Hsh]. apply andb_true_iff in H as [Hk Hall].
-    rewrite forallb_forall in Hall. rewrite forallb_forall in Hsh.
-    intros c Hr. split.
-    - assert (Hc : has_own own c = true).
-      { destruct (reach_univ k c Hr) as [Heq|Hin]; [subst; exact Hk|apply Hall, Hin]. }
-      unfold has_own in Hc. unfold conf_of. destruct (alist_get own c); [reflexivity|discriminate].
-    - intros cd fd Hf Hin. specialize (Hsh cd (find_tclass_In _ _ _ Hf)). rewrite forallb_forall in Hsh.
-      apply Hsh, Hin.
   Qed.
 
   (* ---------------------------------------------------------------- end to end *)
 
   Hypothesis sser_not_none : forall id x w, sser id x = Ok w -> is_none w = false.
 
-  (* Any order of create_serializer calls with the default flags and instantiations (constructors or
-     from_trusted_data), over any family with inheritance: if afterwards the class of a safe instance and
-     the classes it refers to have serializers of their own, x.serialize() returns exactly the document the
-     regular serializer returns for it. *)
+  (* Any order of create_serializer calls with the default flags, instantiations (constructors or
+     from_trusted_data) AND serializations, over any family with inheritance: if afterwards the FastSerializable
+     classes of the family have serializers of their own, x.serialize() of a safe instance - whose fields may hold
+     instances of subclasses of the declared classes - returns exactly the document the regular serializer
+     returns for it. *)
   Theorem fast_history_equals_regular ops cn a d :
-    forallb (fun op => negb (is_ser op)) ops = true ->
     forallb default_op ops = true ->
     let st1 := fst (run_ops sser ofast e ps st0 ops) in
-    closedb (fs_own st1) cn = true ->
+    all_own e st1 = true ->
     safe_class e HFUEL cn = true ->
     ord_inst e HFUEL cn (PStruct cn a) ->
     ser_regular re_match sser oser e HFUEL [] cn (PStruct cn a) = Ok d ->
     snd (run_ops sser ofast e ps st1 [HSer (PStruct cn a)]) = [Ok d].
   Proof.
-    intros Hns Hdef st1 Hcl Hsafe Hord Hreg.
+    intros Hdef st1 Hcl Hsafe Hord Hreg.
     assert (Hfast : class_is_fast e cn = true).
     { unfold HFUEL in Hsafe. cbn [safe_class] in Hsafe. unfold class_is_fast.
       destruct (find_tclass e cn) as [c|]; [|discriminate].
       repeat (apply andb_true_iff in Hsafe as [Hsafe _]). exact Hsafe. }
     unfold st1 in *. clear st1.
-    rewrite (settled_history sser ofast e ps ops [HSer (PStruct cn a)] Hns).
+    rewrite (settled_history sser ofast e ps ops [HSer (PStruct cn a)]).
     - cbn [map expected]. f_equal.
-      rewrite (sfast_ext (conf_of (fs_own (fst (run_ops sser ofast e ps st0 ops)))) (fun _ => dconf)).
-      + apply (fast_equals_regular re_match sser oser ofast e sser_not_none HFUEL cn (PStruct cn a) d Hsafe Hord Hreg).
+      rewrite (sfast_ext (conf_of (fst (run_ops sser ofast e ps st0 ops))) (fun _ => dconf)).
+      + apply (fast_equals_regular re_match sser oser ofast e sser_not_none HFUEL cn a d Hsafe Hord Hreg).
       + intro c. apply all_default_conf_of. apply default_history_default_confs. exact Hdef.
-    - intros op [Hop|[]]. subst op. exists cn, a. split; [reflexivity|]. split; [exact Hfast|].
-      apply closedb_closed. exact Hcl.
+    - intros op [Hop|[]]. subst op. exists cn, a. split; [reflexivity|]. split; [exact Hfast|]. split.
+      + pose proof (all_own_fast e _ cn Hcl Hfast) as Ho. unfold has_own. rewrite Ho. reflexivity.
+      + apply all_own_closed. exact Hcl.
   Qed.
 End History.
